@@ -618,6 +618,17 @@ fn exec(t: &[&str]) -> String {
             },
             _ => "bad-op".into(),
         },
+        // reference for text decoding: the dependency used directly (label lookup, strict decoding, no BOM handling)
+        ["TEXTREF", label, body] => match (unhex(label), unhex(body)) {
+            (Some(label), Some(body)) => match encoding_rs::Encoding::for_label(&label) {
+                None => "NONE".into(),
+                Some(enc) => match enc.decode_without_bom_handling_and_without_replacement(&body) {
+                    Some(t) => format!("SOME {}", hex(t.as_bytes())),
+                    None => "NONE".into(),
+                },
+            },
+            _ => "bad-op".into(),
+        },
         ["URI", b] => match unhex(b).and_then(|b| String::from_utf8(b).ok()) {
             None => "bad-op".into(),
             Some(s) => match std::panic::catch_unwind(|| rhymuri::Uri::parse(&s)) {
